@@ -8,5 +8,11 @@ func init() {
 	}, LoadLater: func(prog *common.Program, first, then string) (*common.USnap, error) {
 		snap, _, _, err := loadHistoryV2(prog, []string{first}, [][]string{{then}})
 		return snap, err
+	}, LoadAll: func(prog *common.Program) (*common.USnap, error) {
+		var all []string
+		for _, p := range prog.Pkgs {
+			all = append(all, p.Path)
+		}
+		return loadV1(prog, all)
 	}})
 }
